@@ -421,6 +421,7 @@ class RowsEvaluator:
         self.rows_by_env = rows_by_env      # "env tag/learner tag" -> list of (encoded) rows
         self._params = dec(params or {})
         self.readonly_params = readonly_params
+        self.single_mapping = False
         self.tag = tag
         self.fail_after = fail_after
         # reuse_list: evaluate() returns a list object that the evaluator keeps, clears and refills on its next call (a result buffer)
@@ -434,6 +435,11 @@ class RowsEvaluator:
         return dict(self._params)
 
     def evaluate(self, environment, learner):
+        if getattr(self, "single_mapping", False):
+            rows = list(self._rows(environment, learner))
+            if len(rows) == 1:
+                return rows[0]        # one Mapping instead of an iterable of mappings (the interface allows both)
+            return rows
         if self.reuse_list:
             self._buf.clear()
             self._buf.extend(self._rows(environment, learner))
